@@ -7,7 +7,7 @@
     aggregator reports at each collection; [windows c h] = the measurements each collection is
     about (since the last reset for delta temporality and observable instruments, since the
     start for cumulative).  All theorems hold for every limit, every history, every kind. *)
-From Verif Require Import Lib.Base C12.Defs C12.Model C12.Spec C12.Proofs C12.ProofsViews.
+From Verif Require Import Lib.Base C12.Defs C12.Model C12.Spec C12.Proofs C12.ProofsViews C12.ProofsBuckets.
 Open Scope N_scope.
 
 (** No collection of any aggregator kind, temporality or filter reports more than L attribute sets. *)
@@ -188,6 +188,30 @@ Theorem c12_cache_is_table : forall vs is st es idx st' fs,
 Proof. intros vs is st es idx st' fs H T. exact (proj1 (build_from_tab vs is st es idx st' fs H T)). Qed.
 Print Assumptions c12_cache_is_table.
 
+(** ** Explicit-bucket histograms at bucket level (histogram.go in full: h_run / hstep)
+    For every limit, filter, temporality, boundaries and history: each reported histogram point holds, per
+    bucket, exactly the number of measurements destined to its attribute set (filtered, limited) that fall
+    into the bucket (bucket rule = sort.SearchFloat64s = Lib.MetricsModel.bidx), their count and sum, and their
+    minimum and maximum -- so the overflow point's buckets / min / max are those of the merged measurements. *)
+Theorem c12_hist_buckets_placed : forall c bounds h,
+  Forall2 (fun pts w => hplaced c bounds w pts) (h_run c bounds h []) (windows c h).
+Proof. exact stream_hplaced. Qed.
+Print Assumptions c12_hist_buckets_placed.
+
+(** Per bucket, the counts of the kept points and of the overflow point add up to the number of
+    measurements of the window in that bucket: neither the limit nor a filter merge moves or loses one. *)
+Theorem c12_hist_buckets_conserved : forall c bounds h,
+  Forall2 (fun pts w => buckets_conserved bounds w pts) (h_run c bounds h []) (windows c h).
+Proof. exact stream_buckets_conserved. Qed.
+Print Assumptions c12_hist_buckets_conserved.
+
+(** The detailed histogram aggregator is the count-and-sum aggregator of the other theorems seen in more
+    detail: forgetting buckets, min and max gives exactly [s_run]. *)
+Theorem c12_hist_detail_refines : forall c bounds ns, s_kind c = AKHist ns false -> forall h,
+  map (map hproj) (h_run c bounds h []) = s_run c h s_empty.
+Proof. intros c bounds ns K h. exact (h_run_projects c bounds ns K h [] []). Qed.
+Print Assumptions c12_hist_detail_refines.
+
 (** * Non-vacuity *)
 Definition ex_id (n : N) : aset := [(str "id", [105; 48 + n])].
 Definition ex_cfg (L : N) (delta : bool) : scfg :=
@@ -269,3 +293,12 @@ Example ex_table_mapped_onto_existing :
   map (fun sf => (is_live (fst sf), snd sf)) (spec_streams vs [ex_inst; ex_inst2]) = [(true, [0%nat; 1%nat])]
   /\ snd (build vs [ex_inst; ex_inst2]) = [[0%nat]; [0%nat]] /\ length (fst (build vs [ex_inst; ex_inst2])) = 1%nat.
 Proof. vm_compute. repeat split. Qed.
+
+(** Buckets under a limit: bounds 0,5,10; L = 2: the first set keeps its own buckets, the other two sets
+    share the overflow point, whose buckets, min and max are those of their merged measurements. *)
+Example ex_hist_buckets :
+  h_run {| s_kind := AKHist false false; s_delta := true; s_limit := 2; s_filter := None |} [0; 5; 10]%Z
+        [AMeasure (ex_id 0) 3; AMeasure (ex_id 1) 7; AMeasure (ex_id 2) 12; AMeasure (ex_id 0) (-1); AMeasure (ex_id 1) 10; ACollect] [] =
+  [[(ex_id 0, {| h_counts := [1; 1; 0; 0]; h_count := 2; h_total := 2; h_min := -1; h_max := 3 |});
+    (overflow_set, {| h_counts := [0; 0; 2; 1]; h_count := 3; h_total := 29; h_min := 7; h_max := 12 |})]].
+Proof. vm_compute. reflexivity. Qed.
